@@ -51,11 +51,16 @@ def check_ledger(res, name, src):
             bv = b[0][0] if b else inventory.Inventory()
             if av != bv or av != ref(total):
                 res.violation(f'h12:hom:{fn}:{f}', f'{fn}(sum(x)) equals sum({fn}(x)) and the Beancount reduction', {'ledger': name, 'where': f, 'fn': fn}, (av, bv), ref(total))
-        res.case((name, 'convert', f))
-        a = conn.execute(f"SELECT convert(sum(position), 'USD') FROM #postings{where}").fetchall()
-        b = conn.execute(f"SELECT sum(convert(position, 'USD')) FROM #postings{where}").fetchall()
-        if (a[0][0] if a else inventory.Inventory()) != (b[0][0] if b else inventory.Inventory()):
-            res.violation(f'h12:hom:convert:{f}', 'convert(sum(x), c) equals sum(convert(x, c))', {'ledger': name, 'where': f, 'fn': 'convert'}, a, b)
+        # USD: priced directly; CAD: only USD is priced in CAD, so lots held at cost in USD convert through their cost currency
+        for cur in ('USD', 'CAD'):
+            res.case((name, 'convert', cur, f))
+            a = conn.execute(f"SELECT convert(sum(position), '{cur}') FROM #postings{where}").fetchall()
+            b = conn.execute(f"SELECT sum(convert(position, '{cur}')) FROM #postings{where}").fetchall()
+            c = conn.execute(f"SELECT last(convert(balance, '{cur}')) FROM #postings{where}").fetchall()
+            av = a[0][0] if a else inventory.Inventory()
+            if av != (b[0][0] if b else inventory.Inventory()) or (c and c[0][0] is not None and av != c[0][0]):
+                res.violation(f'h12:hom:convert:{cur}:{f}', 'convert(sum(x), c) equals sum(convert(x, c)) and convert of the final running balance',
+                              {'ledger': name, 'where': f, 'fn': 'convert', 'currency': cur}, (a, c), b)
         # partition additivity
         for key in ('account', 'currency', 'year, month', 'payee'):
             res.case((name, 'partition', key, f))
